@@ -54,6 +54,9 @@ func c14Gen(r *rand.Rand, tier string) []Case {
 	var out []Case
 	for i := 0; i < n; i++ {
 		c := Case{"creset"}
+		if i%3 != 0 {
+			c = append(c, fmt.Sprintf("pooldust %d", r.Intn(999)))
+		}
 		for j := 0; j < 4+r.Intn(8); j++ {
 			m := 1 + r.Intn(9)
 			bal := big.NewInt(int64(r.Intn(1_000_000)))
@@ -122,6 +125,17 @@ func c14Exec(c Case) (outs []string, fails []Failure, tags []string) {
 		return t.TruncateInt()
 	}
 	pool := func(ctx sdk.Context) *big.Int { return poolOf(ctx, denom).BigInt() }
+	// the same, exactly: the stored decimal amount × 10^18 (the pool holds fractions — reward remainders)
+	poolRawOf := func(ctx sdk.Context, dn string) *big.Int {
+		t := sdk.ZeroDec()
+		for _, dc := range app.DistrKeeper.GetFeePool(ctx).CommunityPool {
+			if dc.Denom == dn {
+				t = t.Add(dc.Amount)
+			}
+		}
+		return t.BigInt()
+	}
+	e18 := new(big.Int).Exp(big.NewInt(10), big.NewInt(18), nil)
 	// the stored pool is a well-formed coin set (sorted, one entry per denomination, positive amounts)
 	poolWellFormed := func(i int, what string) {
 		if err := app.DistrKeeper.GetFeePool(ctx).CommunityPool.Validate(); err != nil {
@@ -129,9 +143,9 @@ func c14Exec(c Case) (outs []string, fails []Failure, tags []string) {
 		}
 	}
 	supply := func(ctx sdk.Context) *big.Int { return app.BankKeeper.GetSupply(ctx, denom).Amount.BigInt() }
-	type snap struct{ sup, pool, distr, bonded, notb, gov *big.Int }
+	type snap struct{ sup, pool, poolRaw, distr, bonded, notb, gov *big.Int }
 	take := func(ctx sdk.Context) snap {
-		return snap{supply(ctx), pool(ctx), modBal(ctx, distrtypes.ModuleName), modBal(ctx, stakingtypes.BondedPoolName), modBal(ctx, stakingtypes.NotBondedPoolName), modBal(ctx, govtypes.ModuleName)}
+		return snap{supply(ctx), pool(ctx), poolRawOf(ctx, denom), modBal(ctx, distrtypes.ModuleName), modBal(ctx, stakingtypes.BondedPoolName), modBal(ctx, stakingtypes.NotBondedPoolName), modBal(ctx, govtypes.ModuleName)}
 	}
 	sub := func(a, b *big.Int) *big.Int { return new(big.Int).Sub(a, b) }
 	// the property's predicate for an event that destroys stake / deposits: supply unchanged, community pool and
@@ -147,6 +161,9 @@ func c14Exec(c Case) (outs []string, fails []Failure, tags []string) {
 		}
 		if sub(post.pool, pre.pool).Cmp(left) != 0 {
 			fl("C14:community-pool-delta", fmt.Sprintf("community pool grew by %s, pools lost %s", sub(post.pool, pre.pool), left))
+		}
+		if sub(post.poolRaw, pre.poolRaw).Cmp(new(big.Int).Mul(left, e18)) != 0 {
+			fl("C14:community-pool-delta", fmt.Sprintf("community pool grew by %s/1e18 (from %s/1e18), pools lost %s", sub(post.poolRaw, pre.poolRaw), pre.poolRaw, left))
 		}
 		if sub(post.distr, pre.distr).Cmp(left) != 0 {
 			fl("C14:distribution-account-delta", fmt.Sprintf("distribution account grew by %s, pools lost %s", sub(post.distr, pre.distr), left))
@@ -213,6 +230,21 @@ func c14Exec(c Case) (outs []string, fails []Failure, tags []string) {
 				app.BankKeeper.SetSendEnabled(ctx, "bcoin", f[0] == "sendon")
 				tags = append(tags, "transfers-"+strings.TrimPrefix(f[0], "send"))
 				out = "skip"
+			case "pooldust":
+				// the community pool holds a fraction of a unit, as after any block of fee allocation (the remainder of the
+				// validators' rewards goes to the pool as a decimal amount; the whole coin sits in the distribution account)
+				one := sdk.NewCoins(sdk.NewCoin(denom, sdkmath.NewInt(1)), sdk.NewCoin("bcoin", sdkmath.NewInt(1)))
+				if err := app.BankKeeper.MintCoins(ctx, coinomicstypes.ModuleName, one); err != nil {
+					panic(err)
+				}
+				if err := app.BankKeeper.SendCoinsFromModuleToModule(ctx, coinomicstypes.ModuleName, distrtypes.ModuleName, one); err != nil {
+					panic(err)
+				}
+				fp := app.DistrKeeper.GetFeePool(ctx)
+				fp.CommunityPool = fp.CommunityPool.Add(sdk.NewDecCoinFromDec(denom, sdk.NewDecWithPrec(int64(1+vmIdx(f[1])%999), 3)), sdk.NewDecCoinFromDec("bcoin", sdk.NewDecWithPrec(5, 1)))
+				app.DistrKeeper.SetFeePool(ctx, fp)
+				tags = append(tags, "community-pool-holds-a-fraction")
+				out = "skip"
 			case "fundpool":
 				// the distribution module's own write to the fee pool (MsgFundCommunityPool)
 				coins := sdk.NewCoins(sdk.NewCoin(denom, sdkmath.NewIntFromBigInt(mustBig(f[1]))))
@@ -238,10 +270,14 @@ func c14Exec(c Case) (outs []string, fails []Failure, tags []string) {
 				if err := app.BankKeeper.SendCoinsFromModuleToModule(ctx, coinomicstypes.ModuleName, c14Mods[m], coins); err != nil {
 					panic(err)
 				}
-				type two struct{ sup, pool, distr sdk.Coins }
+				type two struct {
+					sup, pool, distr sdk.Coins
+					raw              map[string]*big.Int
+				}
 				take2 := func() two {
-					var t two
+					t := two{raw: map[string]*big.Int{}}
 					for _, c := range coins {
+						t.raw[c.Denom] = poolRawOf(ctx, c.Denom)
 						t.sup = t.sup.Add(app.BankKeeper.GetSupply(ctx, c.Denom))
 						t.pool = t.pool.Add(sdk.NewCoin(c.Denom, poolOf(ctx, c.Denom)))
 						t.distr = t.distr.Add(app.BankKeeper.GetBalance(ctx, authtypes.NewModuleAddress(distrtypes.ModuleName), c.Denom))
@@ -266,6 +302,11 @@ func c14Exec(c Case) (outs []string, fails []Failure, tags []string) {
 				}
 				if !post.pool.Sub(pre.pool...).IsEqual(coins) {
 					fl("C14:community-pool-delta", fmt.Sprintf("community pool grew by %s", post.pool.Sub(pre.pool...)))
+				}
+				for _, c := range coins {
+					if sub(post.raw[c.Denom], pre.raw[c.Denom]).Cmp(new(big.Int).Mul(c.Amount.BigInt(), e18)) != 0 {
+						fl("C14:community-pool-delta", fmt.Sprintf("community pool of %s grew by %s/1e18 (from %s/1e18), burned %s", c.Denom, sub(post.raw[c.Denom], pre.raw[c.Denom]), pre.raw[c.Denom], c.Amount))
+					}
 				}
 				if !post.distr.Sub(pre.distr...).IsEqual(coins) {
 					fl("C14:distribution-account-delta", fmt.Sprintf("distribution account grew by %s", post.distr.Sub(pre.distr...)))
